@@ -39,6 +39,27 @@ def _gen_step(ci, dom):
     def g(draw, w):
         if not w.handles:
             return {"t": "new", "r": 0, "id": w.next_id()}
+        if w.nstep <= 3 and w.plan_operands:
+            # set up operand objects early: a freshly opened (never loaded) synced object of the
+            # same or of another class, holding content equal / close to the first document
+            if len(w.res) < 2:
+                import copy as _c
+                k = w.root_ci[0].kind
+                name = (ci if draw(st.booleans()) else CLASSES[draw(st.sampled_from(OTHER[k]))]).name
+                oci = CLASSES[name]
+                doc = _c.deepcopy(w.docs[0])
+                if isinstance(doc, list) and draw(st.booleans()):
+                    if doc and draw(st.booleans()):
+                        doc[-1] = draw(dom.scalars())
+                    else:
+                        doc.append(draw(dom.scalars()))
+                if oci.attr and "." in __import__("json").dumps(list(_keys(doc))):
+                    doc = {} if k == "dict" else []
+                if oci.backend == "mongo" and not _mongo_ok(doc):
+                    doc = {} if k == "dict" else []
+                return {"t": "newres", "cls": name, "doc": enc(doc)}
+            if not any(h.res == 1 for h in w.handles):
+                return {"t": "new", "r": 1, "id": w.next_id()}
         c = draw(st.integers(0, 19))
         if c == 0 and len(w.res) < 3:
             # an operand object: same class, or another class of the same data type
@@ -68,8 +89,20 @@ def _gen_step(ci, dom):
             return None
         if draw(st.booleans()):
             return gen.draw_mutator(draw, w, hi, dom, p_raise=3, tuples=True)
+        if w.handles[hi].kind == "list" and draw(st.integers(0, 3)) == 0:
+            return gen.draw_read(draw, w, hi, dom, methods=["lt", "le", "gt", "ge", "eq", "ne"])
         return gen.draw_read(draw, w, hi, dom)
     return g
+
+
+def _mongo_ok(v):
+    if isinstance(v, dict):
+        return all("\x00" not in k and _mongo_ok(x) for k, x in v.items())
+    if isinstance(v, list):
+        return all(_mongo_ok(x) for x in v)
+    if isinstance(v, int) and not isinstance(v, bool):
+        return -(2**63) <= v < 2**63
+    return True
 
 
 def _keys(doc):
@@ -118,11 +151,11 @@ def run_shard(spec, seed, tier, active):
         init = draw(st.one_of(st.just(ABSENT), dom.doc(ci.kind), dom.doc(ci.kind)))
         sigs = set()
         g = _gen_step(ci, dom)
+        plan_operands = draw(st.booleans())
 
         def gstep(dr, w):
-            # record the signature of the previous op (its outcome is known now)
-            s = g(dr, w)
-            return s
+            w.plan_operands = plan_operands
+            return g(dr, w)
 
         w = wm.run_generated(ID, ci, [init], gstep, draw, max_steps)
         nt = False
